@@ -18,6 +18,7 @@ Local Arguments identify : simpl never.
 Local Arguments head_of : simpl never.
 Local Arguments rd_of : simpl never.
 Local Arguments wr_of : simpl never.
+Local Arguments inf_of : simpl never.
 Local Arguments known : simpl never.
 
 (* ---------- equivalence of process states up to the tag buffer ---------- *)
@@ -253,7 +254,7 @@ Definition Wref : world :=
      w_rd := map (fun i => if (i =? (1*4+0)*4+0) || (i =? (2*4+2)*4+1) then 1001 else if i =? (3*4+2)*4+1 then 1002 else 139)
                  (map Z.of_nat (seq 0 64));
      w_wr := repeat (0, 1%nat) 16;
-     w_empty := 0%nat |}.
+     w_empty := 0%nat; w_inf := [] |}.
 Definition fsref : fsys := [EAbsent; EFile 1; EFile 2; EFile 3].
 
 (* defect 8: a failed open leaves the current format set *)
